@@ -74,6 +74,11 @@ impl Sink {
     }
 }
 
+/// a well-mixed index derived from a case number (for choosing variants independently of sampling strides)
+pub fn mix(i: usize) -> usize {
+    ((i as u64).wrapping_add(0x9E37).wrapping_mul(0x9E3779B97F4A7C15) >> 24) as usize
+}
+
 pub fn read_cases(path: &str) -> Vec<serde_json::Value> {
     let text = std::fs::read_to_string(path).unwrap_or_else(|e| {
         eprintln!("vh: cannot read {path}: {e}");
